@@ -39,6 +39,17 @@ extern _Bool verif_thrown;
 static inline void verif_spin_hint(void) {}
 static inline void verif_sleep_for(void) {}
 
+/* std::min / std::max (by value) */
+#define VERIF_MINMAX(T) \
+  static inline T verif_min_##T(T a, T b) { return b < a ? b : a; } \
+  static inline T verif_max_##T(T a, T b) { return a < b ? b : a; }
+VERIF_MINMAX(double)
+VERIF_MINMAX(uint64_t)
+VERIF_MINMAX(size_t)
+VERIF_MINMAX(int64_t)
+VERIF_MINMAX(uint32_t)
+VERIF_MINMAX(int32_t)
+
 static inline atomic_u64 atomic_u64_init(uint64_t v) { atomic_u64 a; a.v = v; return a; }
 static inline atomic_b atomic_b_init(_Bool v) { atomic_b a; a.v = v; return a; }
 
